@@ -6,16 +6,21 @@ Driver for C01 / C04 (one negotiation model).  Line (fields after the property i
     run <st0> <ws> <cfg> <script> <picks> <fault>
 
 * `st0`     initial `SessionState`, decimal
-* `ws`      `0`/`1` WebSocket framing (ignored by the model: only the syntax of headers differs)
+* `ws`      flags: `0`/`1` WebSocket framing (ignored by the model: only the syntax of headers
+            differs), `b` a read at the end of the script blocks, `t` the StreamConfig carries
+            TeeIn/TeeOut (the model runs `stepT true`)
 * `cfg`     `;`-joined features `ns.loc:nec:proh:negotiable:listReq:listErr:parseErr:mask:restart:negErr`
-            (the last six fields are the scripted behaviour of the callbacks), `-` = none
-* `script`  `;`-joined peer items: `H1`/`H0` header good/bad, `A<i,i,…>` features list with
+            (the last six fields are the scripted behaviour of the callbacks; an optional eleventh
+            field `layer`: a restarting Negotiate returns a new connection layer), `-` = none
+* `script`  `;`-joined peer items: `H1`/`H0` header good/bad, `Hx` a good header of the other
+            framing (`<open/>` on TCP, `<stream:stream>` on WebSocket), `A<i,i,…>` features list with
             items `ns.loc.req` or `J` (character data), `Ens.loc.iq.payload` another element,
             `X` stream error, `T` a token that is not a start element; `-` = empty
 * `picks`   `,`-joined names `ns.loc` of the `Negotiate` calls observed on the initiating side
-* `fault`   `-` none, `k` the k-th I/O operation fails, `k+` every operation from the k-th on,
+* `fault`   `/`-separated parts: `-` none, `k` the k-th I/O operation fails, `k+` every operation from the k-th on,
             `Cn` the context is cancelled when `n` events have happened (counting the model's
-            events that are printed)
+            events that are printed), `CB` it is cancelled as soon as an operation blocks,
+            `Hk` the k-th I/O operation blocks (returns only when its deadline passes), `Bk` = `CB/Hk`
 
 Answer: `<events> <outcome> <state>`; events `,`-joined in order (`-` if none): `Wh` header
 written, `R` a read that delivered an item, `Re` read at end of input, `R!`/`Wh!`/`Wl!` failed
@@ -33,6 +38,8 @@ structure Beh where
   mask : St
   restart : Bool
   negErr : Bool
+  /-- a restarting `Negotiate` returns a new connection layer, not the session's connection -/
+  layer : Bool := false
 
 def parseName (s : String) : Option FName :=
   match s.splitOn "." with
@@ -50,6 +57,11 @@ def parseBeh (idx : Nat) (s : String) : Option Beh :=
     pure { f := ⟨idx, name, ← parseSt nec, ← parseSt proh, ← parseBool ng⟩, listReq := ← parseBool lr,
            listErr := ← parseBool le, parseErr := ← parseBool pe, mask := ← parseSt m,
            restart := ← parseBool rs, negErr := ← parseBool ne }
+  | [n, nec, proh, ng, lr, le, pe, m, rs, ne, ly] => do
+    let name ← parseName n
+    pure { f := ⟨idx, name, ← parseSt nec, ← parseSt proh, ← parseBool ng⟩, listReq := ← parseBool lr,
+           listErr := ← parseBool le, parseErr := ← parseBool pe, mask := ← parseSt m,
+           restart := ← parseBool rs, negErr := ← parseBool ne, layer := ← parseBool ly }
   | _ => none
 
 def parseAdvItem (s : String) : Option AdvItem :=
@@ -61,6 +73,7 @@ def parseAdvItem (s : String) : Option AdvItem :=
 def parsePeer (s : String) : Option Peer :=
   if s == "H1" then some (.hdr true)
   else if s == "H0" then some (.hdr false)
+  else if s == "Hx" then some .hdrOther
   else if s == "X" then some .serr
   else if s == "T" then some .nonStart
   else if s.startsWith "A" then do
@@ -73,9 +86,19 @@ def parsePeer (s : String) : Option Peer :=
     | _ => none
   else none
 
+/-- what the `fault` field of a line describes -/
+structure FaultSpec where
+  fault : Nat → Bool := fun _ => false
+  cancel : List Ev → Bool := fun _ => false
+  block : Nat → Bool := fun _ => false
+
+def isBlockedEv : Ev → Bool
+  | .blocked _ => true
+  | _ => false
+
 /-- the scripted callbacks: behaviour is looked up by feature name (first match, like the
 configuration the harness builds); an unknown feature never reaches a callback -/
-def mkOracle (bs : List Beh) (fault : (Nat → Bool) × (List Ev → Bool)) : Oracle :=
+def mkOracle (bs : List Beh) (fs : FaultSpec) : Oracle :=
   let look (f : Feature) : Option Beh := bs.find? (fun b => b.f.id == f.id)
   { neg := fun _ f _ => match look f with
       | some b => ⟨b.mask, b.restart, b.negErr⟩
@@ -86,8 +109,15 @@ def mkOracle (bs : List Beh) (fault : (Nat → Bool) × (List Ev → Bool)) : Or
     parseErr := fun _ f _ => match look f with
       | some b => b.parseErr
       | none => true
-    fault := fault.1
-    cancel := fault.2 }
+    fault := fs.fault
+    cancel := fs.cancel
+    block := fs.block
+    -- `setDeadline` moves both deadlines (fact `C04_gen_deadline`)
+    dlRd := true
+    dlWr := true
+    layer := fun _ f => match look f with
+      | some b => b.layer
+      | none => false }
 
 def showName (n : FName) : String := s!"{n.ns}.{n.loc}"
 
@@ -106,21 +136,31 @@ def showEv : Ev → Option String
   | .listIn _ _ _ _ => none
   | .neg f st _ _ _ _ => some s!"N{showName f.name}@{st.toNat}"
   | .refuse _ => none
+  | .blocked op => some (if op.wr then "Wb" else "Rb")
 
-/-- `(fault, cancel)`; `Cn`: the context is cancelled once `n` events have happened -/
-def parseFault (s : String) : Option ((Nat → Bool) × (List Ev → Bool)) :=
-  let none' : Nat → Bool := fun _ => false
-  let nonec : List Ev → Bool := fun _ => false
-  if s == "-" then some (none', nonec)
+/-- one `/`-separated part: `k` / `k+` failing operations, `Cn` cancel after `n` printed events,
+`CB` cancel as soon as an operation is blocked, `Hk` operation `k` blocks, `Bk` = `CB/Hk` -/
+def parsePart (fs : FaultSpec) (s : String) : Option FaultSpec :=
+  if s == "-" then some fs
+  else if s == "CB" then some { fs with cancel := fun tr => tr.any isBlockedEv }
   else if s.startsWith "C" then do
     let k ← ((s.drop 1).toString).toNat?
-    pure (none', fun tr => decide (k ≤ (tr.filterMap showEv).length))
+    pure { fs with cancel := fun tr => decide (k ≤ (tr.filterMap showEv).length) }
+  else if s.startsWith "H" then do
+    let k ← ((s.drop 1).toString).toNat?
+    pure { fs with block := fun i => i == k }
+  else if s.startsWith "B" then do
+    let k ← ((s.drop 1).toString).toNat?
+    pure { fs with block := fun i => i == k, cancel := fun tr => tr.any isBlockedEv }
   else if s.endsWith "+" then do
     let k ← ((s.dropEnd 1).toString).toNat?
-    pure (fun i => decide (k ≤ i), nonec)
+    pure { fs with fault := fun i => decide (k ≤ i) }
   else do
     let k ← s.toNat?
-    pure (fun i => i == k, nonec)
+    pure { fs with fault := fun i => i == k }
+
+def parseFault (s : String) : Option FaultSpec :=
+  (s.splitOn "/").foldlM parsePart {}
 
 def showCls : ErrCls → String
   | .io => "io" | .cb => "cb" | .policy => "policy" | .streamErr => "streamerr" | .proto => "proto"
@@ -130,6 +170,7 @@ def showOutcome : Pc → String
   | .fail c => "fail:" ++ showCls c
   | .stuck => "stuck"
   | .crash => "PANIC"
+  | .hung _ => "STALL"
   | _ => "fuel"
 
 /-- `run` that stops stepping once a final control point is reached (final points are
@@ -138,6 +179,11 @@ fixed points of `step`; `Lemmas/NegotiateDriver.lean: runFast_eq_run`, restated 
 def runFast (C : List Feature) (O : Oracle) : Nat → Conf → Conf
   | 0, c => c
   | n + 1, c => if c.pc.final then c else runFast C O n (step C O c)
+
+/-- the same loop for a session configured with a tee (`stepT`) -/
+def runFastT (tee : Bool) (C : List Feature) (O : Oracle) : Nat → TConf → TConf
+  | 0, t => t
+  | n + 1, t => if t.c.pc.final && t.c.pc != .tee then t else runFastT tee C O n (stepT tee C O t)
 
 def advLen : Peer → Nat
   | .adv items => items.length + 1
@@ -149,14 +195,16 @@ def fuelFor (C : List Feature) (script : List Peer) (picks : List FName) : Nat :
 
 def handle (args : List String) : Option String :=
   match args with
-  | ["run", st0, _ws, cfg, script, picks, fault] => do
+  | ["run", st0, flags, cfg, script, picks, fault] => do
     let st0 ← parseSt st0
     let bs ← mapM? (fun (p : String × Nat) => parseBeh p.2 p.1) (splitList cfg ';').zipIdx
     let sc ← mapM? parsePeer (splitList script ';')
     let pk ← mapM? parseName (splitList picks ',')
     let fl ← parseFault fault
     let C := bs.map (·.f)
-    let c := runFast C (mkOracle bs fl) (fuelFor C sc pk) (init st0 sc pk)
+    let tee := flags.contains 't'
+    let c := if tee then (runFastT true C (mkOracle bs fl) (fuelFor C sc pk + 4 * (sc.length + 2)) ⟨init st0 sc pk, false⟩).c
+             else runFast C (mkOracle bs fl) (fuelFor C sc pk) (init st0 sc pk)
     let evs := c.tr.reverse.filterMap showEv
     pure s!"{joinList evs} {showOutcome c.pc} {c.st.toNat}"
   | _ => none
